@@ -139,7 +139,7 @@ class RvTables(Slice):
             findings.append(("violation", f"memory table rows {[r[0] for r in rows]} != words containing a written byte {want}"))
         for a, vals in sim.get_data_memory_entries():
             word = sum(int(low.memory_file.get(a[0] + i, 0)) << (8 * i) for i in range(4))
-            if read_back(32, word, vals) or a[1] != "0x%08X" % a[0]:
+            if read_back(32, word, vals) or int(str(a[1]), 16) != a[0]:
                 findings.append(("violation", f"row {a} shows {vals} for word {word:#x}"))
         for i, t in enumerate(sim.get_register_entries()):
             if read_back(32, int(sim.state.register_file.registers[i]), t):
